@@ -105,7 +105,7 @@ func (m *ModuleCors) loadRuleData(query url.Values) (string, error) {
 func addVaryHeader(rspHeader bfe_http.Header) {
 	varyValue := rspHeader.Get(HeaderVary)
 	if len(varyValue) == 0 {
-		rspHeader.Set(HeaderVary, HeaderOrigin)
+		rspHeader.Add(HeaderVary, HeaderOrigin)
 		return
 	}
 
@@ -123,7 +123,7 @@ func addVaryHeader(rspHeader bfe_http.Header) {
 	}
 
 	if needAddOrigin {
-		varyValue += fmt.Sprintf(",%s", HeaderOrigin)
+		rspHeader.Add(HeaderVary, HeaderOrigin)
 	}
 }
 
